@@ -70,6 +70,9 @@ def build():
     C = ContractSet("C10", "Hardware switch-to-coil rules match the enabled devices exactly")
     C.strings = True
     C.finite_checks.append(spec_defaults_check)
+    C.finite_checks.append(common.native_demo_check(
+        "c10_repulse_stopped_while_button_held.py",
+        "a flipper disabled while its software EOS repulse holds the coil (button still held) leaves the coil off"))
     common.declare_events(C)
     common.declare_delay_client(C)
     for nt in ("SwitchRuleSettings", "DriverRuleSettings", "PulseRuleSettings", "HoldRuleSettings", "EosRuleSettings"):
@@ -565,10 +568,30 @@ def build_extra():
           trusted_reason="switch controller (C03)")
     C.cls("BcpInterface", fields={})
     C.ext("BcpInterface.send_driver_event", model=common.noop, trusted_reason="BCP monitoring notification")
+    # the coil as the software repulse sees it: sw_on = "switched on by an enable() command of this manager and not
+    # switched off since" (model state of the platform driver; pulse() ends by itself)
+    C.cls("HwDrvR", fields=dict(sw_on=Bool))
+
+    def hw_cmd(what, on):
+        def m(I, env, a, k):
+            emit(I, "sw_eos.hw." + what)
+            if on is not None:
+                I.write_field(env["self"].ref, "sw_on", VBool(z3.BoolVal(on)))
+            return NONE
+        return m
+    C.ext("HwDrvR.enable", model=hw_cmd("enable", True), pure=False, trusted_reason="platform driver interface")
+    C.ext("HwDrvR.disable", model=hw_cmd("disable", False), pure=False, trusted_reason="platform driver interface")
+    C.ext("HwDrvR.pulse", model=hw_cmd("pulse", None), pure=False, trusted_reason="platform driver interface")
+    DRV_R = ObjS("DriverSettingsR", hw_driver=ObjS("HwDrvR", sw_on=Bool), pulse_settings=Opaque("Any"),
+                 hold_settings=Opt(Opaque("Any")))
+    C.cls("DriverSettingsR", fields=dict(DRV_R.fields))
+    INV_R = [("SE0: a coil the software repulse has switched on is on only while it sees the button held (its button-"
+              "release handler - or stop() - switches it off)",
+              "implies(self.driver.hw_driver.sw_on, self._button_is_active)")]
     C.cls("SoftwareEosRepulseManager", file=PC, fields=dict(
         machine=ObjS("MachineController", switch_controller=ObjS("SwitchController")), _handlers=Seq(Opaque("SwitchKey")),
         _button_is_active=Bool, _is_eos_closed_long_enough=Bool, enable_switch=Opaque("Any"), eos_switch=Opaque("Any"),
-        driver=Opaque("Any"), repulse_settings=Opaque("Any")))
+        driver=DRV_R, repulse_settings=Opaque("Any")), invariants=INV_R)
     C.globals["SoftwareEosRepulseManager"] = VFn("model", model=lambda I, a, k: (
         emit(I, "sw_eos.create"), VObj(Obj("SoftwareEosRepulseManager", ObjS("SoftwareEosRepulseManager", {}),
                                            I.fresh_name("sw_eos"))))[1])
@@ -704,25 +727,56 @@ def build_extra():
     C.cls("RepulseSettingsI", fields=dict(debounce_ms=Int))
     C.fn("SoftwareEosRepulseManager.__init__",
          params=dict(machine=ObjS("MachineController", switch_controller=ObjS("SwitchController")),
-                     enable_switch=SW("enable"), eos_switch=SW("eos"), driver=Opaque("Any"), repulse_settings=RS),
+                     enable_switch=SW("enable"), eos_switch=SW("eos"), driver=DRV_R, repulse_settings=RS),
+         requires=["not driver.hw_driver.sw_on"],
          ensures=[("SE1: the software EOS repulse registers its four switch handlers (button on/off, EOS closed long "
                    "enough, EOS open) and keeps EVERY key in _handlers", "n_registered() == 4 and "
-                   "all_registered_handlers_held()")],
+                   "all_registered_handlers_held()"),
+                  ("SE0 holds for the new manager", "implies(self.driver.hw_driver.sw_on, self._button_is_active)")],
          modifies=["self.machine", "self.enable_switch", "self.eos_switch", "self.driver", "self.repulse_settings",
                    "self._button_is_active", "self._is_eos_closed_long_enough", "self._handlers", "self._handlers.**"],
          raises={}, no_inv=True)
     C.fn("SoftwareEosRepulseManager.stop",
          ensures=[("SE2: stop() removes all handlers held in _handlers - after it no EOS or button change can drive the "
-                   "coil", "stop_removes_all()")],
-         modifies=[], raises={}, no_inv=True, emits=lambda I, env, res: emit(I, "sw_eos.stop"), call_ensures=[])
+                   "coil", "stop_removes_all()"),
+                  ("SE5: ... and a coil the manager had switched on in software is switched off: the button release "
+                   "that would have done it is not seen any more (flipper disabled at ball end / tilt / service while "
+                   "the button is held)", "not self.driver.hw_driver.sw_on")],
+         modifies=["self._button_is_active", "self.driver.hw_driver.sw_on"], raises={},
+         emits=lambda I, env, res: emit(I, "sw_eos.stop"),
+         call_ensures=["not self.driver.hw_driver.sw_on and not self._button_is_active"])
+    RM = ["self._button_is_active", "self._is_eos_closed_long_enough", "self.driver.hw_driver.sw_on"]
+    C.helpers["n_sw_hw"] = lambda I, what: VInt(len(events_named(I, "sw_eos.hw." + I.pyconst(I.force(what)))))
+    C.trace_helpers |= {"n_sw_hw"}
+    C.fn("SoftwareEosRepulseManager._button_active", params=dict(kwargs=Opaque("Any")),
+         ensures=["self._button_is_active", "n_sw_hw('enable') == 0"], modifies=RM, raises={})
+    C.fn("SoftwareEosRepulseManager._button_inactive", params=dict(kwargs=Opaque("Any")),
+         ensures=[("SE4: the button release switches the coil off", "not self._button_is_active and "
+                   "not self.driver.hw_driver.sw_on and n_sw_hw('disable') == 1")], modifies=RM, raises={})
+    C.fn("SoftwareEosRepulseManager._eos_closed_long_enough", params=dict(kwargs=Opaque("Any")),
+         ensures=["n_sw_hw('enable') == 0 and n_sw_hw('pulse') == 0"], modifies=RM, raises={})
+    C.fn("SoftwareEosRepulseManager._repulse_on_eos_open", params=dict(kwargs=Opaque("Any")),
+         ensures=[("SE3: the repulse drives the coil only while the button is held and the EOS switch had been closed "
+                   "long enough, and consumes that", "implies(n_sw_hw('enable') + n_sw_hw('pulse') > 0, "
+                   "old(self._button_is_active) and old(self._is_eos_closed_long_enough) and "
+                   "not self._is_eos_closed_long_enough)"),
+                  ("the button state is left alone", "self._button_is_active == old(self._button_is_active)")],
+         modifies=RM, raises={})
     C.helpers["n_psu_removed"] = lambda I: VInt(len(events_named(I, "remove_switch_handler")))
     C.fn("PlatformController.clear_hw_rule", params=dict(rule=Init(rule_init)),
          loops={0: LoopSpec(invariant=[], unroll=True)},
          ensures=[("PC3: every (switch, coil) pair the HardwareRule holds is cleared on its platform, each once; the PSU "
                    "switch handler and the software EOS handlers are removed iff the rule has them",
                    "cleared_as_held(rule) and n_psu_removed() == (1 if rule.switch_key is not None else 0) and "
-                   "n_sw_eos_stops() == (1 if rule.software_rule_handler is not None else 0)")],
-         modifies=[], raises={})
+                   "n_sw_eos_stops() == (1 if rule.software_rule_handler is not None else 0)"),
+                  ("PC4: a coil the rule's software repulse had switched on is off afterwards (SE5)",
+                   "True if rule.software_rule_handler is None else "
+                   "not rule.software_rule_handler.driver.hw_driver.sw_on")],
+         requires=[("the rule's software repulse manager is a valid one (SE0)",
+                    "True if rule.software_rule_handler is None else implies("
+                    "rule.software_rule_handler.driver.hw_driver.sw_on, rule.software_rule_handler._button_is_active)")],
+         modifies=["rule.software_rule_handler._button_is_active", "rule.software_rule_handler.driver.hw_driver.sw_on"],
+         raises={})
 
     # ---- the virtual platform's rule table
     C.cls("Logger", fields={})
